@@ -296,7 +296,14 @@ func (w *cfgWriter) block(name string, bl m.BlockM, level int, selfOK bool) {
 			continue
 		}
 		written[ka.Name] = true
-		if ka.Static != nil {
+		if g.Chance(10) {
+			// a key written as an expression that has no static value: the dependent body cannot be resolved
+			lit := `"x"`
+			if ka.Static != nil {
+				lit = literalText(g, ka.Static.Cty(), false)
+			}
+			w.attrLine(level+1, ka.Name, Pick(g, []string{`"${var.a}"`, `lower(` + lit + `)`, `var.ab ? ` + lit + ` : ` + lit, `"pre-${var.a}"`, `f(var.a)`}))
+		} else if ka.Static != nil {
 			w.attrLine(level+1, ka.Name, literalText(g, ka.Static.Cty(), false))
 		} else {
 			w.attrLine(level+1, ka.Name, ka.Addr)
